@@ -103,6 +103,10 @@ def curated():
     a(mk('fanin_same2', ['A', 'B', 'C'], {'A': 'hy', 'B': 'hy', 'C': 'hy'}, [('A', 'C', {'o': 'p', 'i': 'm'}), ('B', 'C', {'o': 'p', 'i': 'm'}),
                                                                               ('B', 'C', {'o': 'e', 'i': 't'})],
          tags=['data', 'trigger', 'mixed']))
+    a(mk('shortcut3', ['A', 'B', 'C'], {'A': 'hy', 'B': 'ev', 'C': 'hy'}, [('A', 'B'), ('B', 'C'), ('A', 'C', {'k': 2, 'i': 't2'})],
+         tags=['trigger', 'chain', 'delay']))
+    a(mk('shortcut3_sym', ['A', 'B', 'C'], {'A': 'hy', 'B': 'ev', 'C': 'hy'}, [('A', 'B'), ('B', 'C'), ('A', 'C', {'k': 'sym', 'i': 't2'})],
+         tags=['trigger', 'chain', 'delay', 'nocache']))
     a(mk('fanout', ['A', 'B', 'C'], {'A': 'hy', 'B': 'hy', 'C': 'tb'}, [('A', 'B'), ('A', 'C', {'o': 'p'})], tags=['data', 'trigger']))
     a(mk('loop3shift', ['A', 'B', 'C'], {'A': 'hy', 'B': 'hy', 'C': 'hy'}, [('A', 'B'), ('B', 'C'), ('C', 'A', {'k': 1})],
          tags=['cycle', 'trigger']))
@@ -129,7 +133,7 @@ def curated():
 
 
 def by_name(name):
-    for t in curated() + (generated() if name.startswith('g2.') else []):
+    for t in curated() + (generated() if name.startswith('g2.') else []) + (generated_multi() if name.startswith('gm.') else []):
         if t['name'] == name:
             return t
     raise KeyError(name)
@@ -212,4 +216,41 @@ def generated():
                         if any(e and e.get('weak') for e in (ab, ba)):
                             tags.append('weak')
                         out.append(mk(name, tree, {'A': ta, 'B': tb_}, edges, init=init, tags=tags))
+    return out
+
+
+def generated_multi():
+    """two parallel connections A->B with different delays (plain / shifted / weak, both orders), same output and input kind
+    (the second one into the second attribute of that kind), optionally a shifted back edge B->A"""
+    out = []
+    kinds = {'plain': {}, 'shift': {'k': 1}, 'shift2': {'k': 2}, 'weak': {'weak': True}}
+    for ta in ('tb', 'ev', 'hy'):
+        for tb_ in ('tb', 'ev', 'hy'):
+            st, dt = SHORT[ta], SHORT[tb_]
+            outs = ['p'] if st == TB else (['e'] if st == EV else ['p', 'e'])
+            ins = ['m'] if dt == TB else (['t'] if dt == EV else ['t', 'm'])
+            for pname, tree in PLACEMENTS2.items():
+                weak_ok = pname in ('same', 'nest')
+                for o in outs:
+                    for i in ins:
+                        if o == 'e' and i == 'm':
+                            continue
+                        for k1, k2 in itertools.permutations(kinds, 2):
+                            if ('weak' in (k1, k2)) and not weak_ok:
+                                continue
+                            if {k1, k2} == {'shift', 'shift2'} and pname != 'root':
+                                continue
+                            for back in (False, True):
+                                if back and pname not in ('root', 'same'):
+                                    continue
+                                e1 = dict(kinds[k1], o=o, i=i)
+                                e2 = dict(kinds[k2], o=o, i=i + '2')
+                                edges = [('A', 'B', e1), ('A', 'B', e2)]
+                                if back:
+                                    bo, bi = default_kinds(dt, st)
+                                    edges.append(('B', 'A', {'o': bo, 'i': bi, 'k': 1}))
+                                init = {'A': 0} if ta == 'ev' else {}
+                                name = f'gm.{ta}{tb_}.{pname}.{o}{i}.{k1}+{k2}' + ('.back' if back else '')
+                                tags = ['generated', 'multi'] + (['weak'] if 'weak' in (k1, k2) else [])
+                                out.append(mk(name, tree, {'A': ta, 'B': tb_}, edges, init=init, tags=tags))
     return out
